@@ -6,9 +6,10 @@
 // exact-size heap region (see Exact<T>) without a terminator, so that reading one element before or behind a view is an
 // ASan error; the C-string overloads get a second copy whose terminator is the last element.
 //
-// The same source is compiled twice (see props/registry.d/C08.json):
+// The same source is compiled three times (see props/registry.d/C08.json):
 //   C08_sv_char : Char = char, full scope
-//   C08_sv_wide : -DC08_WIDE=1 : wchar_t, char16_t, char8_t, char32_t with a reduced scope
+//   C08_sv_wide : -DC08_WIDE=1 : wchar_t and char16_t with a reduced scope
+//   C08_sv_utf  : -DC08_WIDE=2 : char8_t and char32_t with a reduced scope
 //
 // Only arguments the standard gives a meaning to are generated: substr / copy / compare(pos1, ...) /
 // compare(..., pos2, ...) with pos <= size(), remove_prefix/suffix with n <= size(), operator[] with pos < size(),
@@ -610,7 +611,7 @@ auto one(Bufs<Char> const& b, Case const& k, PairFlags pf, bool random, bool dig
         }
         static std::uint64_t nth[4] = {0, 0, 0, 0};
         if ((c4 || sub != 0) && hn >= 2 && (++nth[sub] % 4099) == 1) {
-            vf::sample(sub_names[sub], [&] { return show_case(k) + " -> std answers " + lnum(g_last); });
+            vf::sample(sub_names[sub], [&] { return show_case(k) + " -> std answers " + (info.is_search ? lnum(g_last) : std::to_string(g_last)); });
         }
     }
     return true;
@@ -752,20 +753,21 @@ void vf_run(vf::Ctx& c)
     bool const t       = c.thorough();
 #if !defined(C08_WIDE)
     // the property's scope: all haystacks of length <= 4 (thorough 5), needles <= 3 (4) over {a, b, NUL, 0xE9}
-    Scope<char> sc{CK_CHAR, {'a', 'b', 0, 0xE9}, t ? 5U : 4U, t ? 4U : 3U, t ? 8000U : 2500U, 64};
+    Scope<char> sc{CK_CHAR, {'a', 'b', 0, 0xE9}, t ? 5U : 4U, t ? 4U : 3U, t ? 5000U : 2500U, 64};
     enumerate<char>(c, sc, work);
     random_pairs<char>(c, sc);
-#else
+#elif C08_WIDE == 1
     Scope<wchar_t> sw{CK_WCHAR, {L'a', L'b', 0, 0x20AC}, t ? 4U : 3U, t ? 3U : 2U, t ? 4000U : 1200U, 64};
     enumerate<wchar_t>(c, sw, work);
     random_pairs<wchar_t>(c, sw);
     Scope<char16_t> s16{CK_CHAR16, {u'a', u'b', 0, 0xD83D}, t ? 4U : 3U, t ? 3U : 2U, t ? 4000U : 1200U, 64};
     enumerate<char16_t>(c, s16, work);
     random_pairs<char16_t>(c, s16);
-    Scope<char8_t> s8{CK_CHAR8, {u8'a', u8'b', 0, 0xC3}, t ? 4U : 3U, 2U, t ? 2000U : 600U, 64};
+#else
+    Scope<char8_t> s8{CK_CHAR8, {u8'a', u8'b', 0, 0xC3}, t ? 4U : 3U, t ? 3U : 2U, t ? 4000U : 1200U, 64};
     enumerate<char8_t>(c, s8, work);
     random_pairs<char8_t>(c, s8);
-    Scope<char32_t> s32{CK_CHAR32, {U'a', U'b', 0, 0x1F600}, t ? 4U : 3U, 2U, t ? 2000U : 600U, 64};
+    Scope<char32_t> s32{CK_CHAR32, {U'a', U'b', 0, 0x1F600}, t ? 4U : 3U, t ? 3U : 2U, t ? 4000U : 1200U, 64};
     enumerate<char32_t>(c, s32, work);
     random_pairs<char32_t>(c, s32);
 #endif
@@ -781,9 +783,10 @@ std::string vf_replay(std::string const& sub, std::string const& cs)
     switch (k.ck) {
 #if !defined(C08_WIDE)
     case CK_CHAR: return replay_one<char>(k);
-#else
+#elif C08_WIDE == 1
     case CK_WCHAR: return replay_one<wchar_t>(k);
     case CK_CHAR16: return replay_one<char16_t>(k);
+#else
     case CK_CHAR8: return replay_one<char8_t>(k);
     case CK_CHAR32: return replay_one<char32_t>(k);
 #endif
